@@ -82,6 +82,11 @@ def ops_for(cols, full_index):
     for t in dict.fromkeys(x for x in cols[0][2] if x is not None):
         ops.append({"op": "filter_eq", "col": cols[0][0], "value": t})
         ops.append({"op": "filter_out_eq", "col": cols[0][0], "value": t})
+    # several column=value conditions at once (all must hold), against the id and a payload column
+    for t in dict.fromkeys(x for x in cols[0][2] if x is not None):
+        for i in range(min(n, 2)):
+            ops.append({"op": "filter_eq2", "col": cols[0][0], "value": t, "col2": "id", "value2": i})
+            ops.append({"op": "filter_out_eq2", "col": cols[0][0], "value": t, "col2": "id", "value2": i})
     # slice / slice_off rows
     idx = list(range(-n, n))
     if full_index:
@@ -161,6 +166,14 @@ def expected_ids(op, tin, names, n):
                 m = (c == want)
             hit.append(bool(m))
         return [i for i in range(n) if hit[i] == (o == "filter_eq")]
+    if o in ("filter_eq2", "filter_out_eq2"):
+        kind = op["_kind"]
+        want = op["_value"]
+        hit = []
+        for i, c in enumerate(tin[op["col"]]):
+            m = c is not None and (np.datetime64(c) == want if kind in ("D", "s", "ms", "us") else c == want)
+            hit.append(bool(m) and tin[op["col2"]][i] == op["value2"])
+        return [i for i in range(n) if hit[i] == (o == "filter_eq2")]
     if o == "slice":
         if op.get("rows") is None:
             return list(range(n))
@@ -206,6 +219,10 @@ def apply(d, op, n, kinds):
         return d.filter(**{op["col"]: op["_value"]})
     if o == "filter_out_eq":
         return d.filter_out(**{op["col"]: op["_value"]})
+    if o == "filter_eq2":
+        return d.filter(**{op["col"]: op["_value"], op["col2"]: op["value2"]})
+    if o == "filter_out_eq2":
+        return d.filter_out(**{op["col"]: op["_value"], op["col2"]: op["value2"]})
     if o in ("slice", "slice_off"):
         kw = {}
         if op.get("rows") is not None:
@@ -252,7 +269,7 @@ def check_case(case, rec):
     nontrivial = n >= 2 and (None in keytoks or len(set(keytoks)) < len(keytoks))
     for op in case["ops"]:
         op = dict(op)
-        if op["op"] in ("filter_eq", "filter_out_eq"):
+        if op["op"] in ("filter_eq", "filter_out_eq", "filter_eq2", "filter_out_eq2"):
             op["_kind"] = kinds[op["col"]]
             op["_value"] = decode_value(kinds[op["col"]], op["value"])
         public = {k: v for k, v in op.items() if not k.startswith("_")}
